@@ -100,8 +100,21 @@ func Flush() {
 	for k, v := range cnt {
 		Rec.Class("events/"+k, v)
 	}
-	env = map[string]uint64{}
 	cnt = map[string]int64{}
+}
+
+// EnvMax returns the largest limb seen so far for (phase, function, operand)
+// over all limb classes.
+func EnvMax(phase, fn, operand string) uint64 {
+	envMu.Lock()
+	defer envMu.Unlock()
+	var m uint64
+	for _, c := range []string{"limb0", "limbeven", "limbodd"} {
+		if v := env[phase+"/"+fn+"/"+operand+"/"+c]; v > m {
+			m = v
+		}
+	}
+	return m
 }
 
 func fe(x interface{}) *FE {
